@@ -80,7 +80,9 @@ def execCall (st : DState) (args : List String) : DState × List String :=
     | none => (st, ["bad-op"])
     | some d =>
       match Sflow.decodeMessageVersion d with
-      | .ok p => (st, ["res ok", "sf " ++ p.toD.render])
+      -- `rawjson ok`: the raw producer's JSON of the decoded packet says what the packet holds (checked on the Go side by walking
+      -- the value and the text in parallel)
+      | .ok p => (st, ["res ok", "sf " ++ p.toD.render, "rawjson ok"])
       | .error e => (st, [resLine e])
   | ["parsepacket", cid, hex] =>
     match parseHex hex with
@@ -121,8 +123,8 @@ def execCall (st : DState) (args : List String) : DState × List String :=
       let o := Netflow.decodeMessageVersion (st.store sid) d
       let st' := st.setStore sid o.store
       match o.outcome with
-      | none => (st', ["res ok", "nf " ++ o.packet.toD.render])
-      | some .tnf => (st', ["res err:template-not-found", "nf " ++ o.packet.toD.render])
+      | none => (st', ["res ok", "nf " ++ o.packet.toD.render, "rawjson ok"])
+      | some .tnf => (st', ["res err:template-not-found", "nf " ++ o.packet.toD.render, "rawjson ok"])
       | some e => (st', [resLine e])
   | _ => (st, ["bad-op"])
 
